@@ -285,12 +285,23 @@ def parts(tier):
             for off in (2.0 ** -7, 0.5, 2.0, -(2.0 ** -7), -0.5):
                 yield ("P", p, B[0], B[-1], off, True)
 
+        # the size axis: long tiers (every entry's leaving the old span must be noticed, whatever its index)
+        for n, layout, e in D.size_family(quick):
+            hi_ = e[-1][1]
+            for off in (-1.0, -0.25, 0.25, 5.0):
+                yield ("I", e, 0.0, hi_, off, True)
+                yield ("I", e, 0.0, hi_ + 1.0, off, True)
+        for n in (D.SIZES_QUICK if quick else D.SIZES_THOROUGH):
+            p = D.long_points(n)
+            for off in (-1.0, 0.25, 5.0):
+                yield ("P", p, 0.0, n + 0.0, off, True)
+
     ps.append(InputPart(
         "shift-tiers", gen_shift, _check_shift,
         rule="all interval sets (<=3) and point subsets (<=3) of the 5-point unit grid incl. empty x 3 spans x offsets "
              "%s (bit-exact), and decimal tiers x offsets %s (1e-9); each case runs 3 reporting modes and the +x/-x round "
-             "trip; also tiers on the far-from-zero grid 2**40 + {0, 2**-7, ..., 4} x offsets {+-2**-7, +-0.5, 2} (bit-exact); "
-             "non-trivial = distinct (type, size, clip class none/some/all, left-old-span, sign)" % (OFFS, DOFFS),
+             "trip; also long tiers (%s entries) x 4 offsets; also tiers on the far-from-zero grid 2**40 + {0, 2**-7, ..., 4} x offsets {+-2**-7, +-0.5, 2} (bit-exact); "
+             "non-trivial = distinct (type, size, clip class none/some/all, left-old-span, sign)" % (OFFS, DOFFS, list(D.SIZES_QUICK if quick else D.SIZES_THOROUGH)),
         bounds={"grid_points": 5, "max_entries": 3}))
 
     asets = D.interval_sets(grid, 2 if quick else 3)
